@@ -217,6 +217,19 @@ pub fn on_poll_end(w: &mut World, id: NodeId, res: Res, val: Option<u32>) {
         }
         if w.model.co.first_err_at.is_none() {
             w.model.co.first_err_at = Some(w.log.len());
+            // where does the first error surface? (reach probes)
+            let source_done = match w.model.co.source {
+                Some(s) => w.node(s).done,
+                None => w.node(ROOT).polls > 1,
+            };
+            let saturated = matches!(w.model.co.limit, Some(n) if in_flight(w) + 1 >= n);
+            if source_done {
+                w.stats.p_err_in_flush += 1;
+            } else if saturated {
+                w.stats.p_err_saturated += 1;
+            } else {
+                w.stats.p_err_in_progress += 1;
+            }
         }
     }
 }
